@@ -14,27 +14,23 @@ const ELEM *g_ad_first0;
 #define C02_BASE(p) ((ELEM *)(p))
 #define C02_NSLOTS(p) ((size_t)0)
 #else
-#define C02_BASE(p) ((ELEM *)((char *)(p) - __CPROVER_POINTER_OFFSET(p)))
-#define C02_NSLOTS(p) ((size_t)(__CPROVER_OBJECT_SIZE(p) / C02_SZ))
+#define C02_BASE(p) ((ELEM *)(p) - (ptrdiff_t)C02_IDX(p))
+#define C02_NSLOTS(p) ((size_t)(__CPROVER_OBJECT_SIZE(p) C02_SHR))
 #endif
 
 /* snapshot of the tracked slots of the block that holds p (0 when the block has no such slot) */
 static inline void g_snap_take(struct c02_snap *g, const ELEM *p)
 {
-    g->sk = (p && g_k < C02_NSLOTS(p)) ? C02_BASE(p)[g_k].g_state : 0;
-    g->vk = (p && g_k < C02_NSLOTS(p)) ? C02_BASE(p)[g_k].v : 0;
-    g->sj = (p && g_j < C02_NSLOTS(p)) ? C02_BASE(p)[g_j].g_state : 0;
-    g->vj = (p && g_j < C02_NSLOTS(p)) ? C02_BASE(p)[g_j].v : 0;
+    ELEM ek, ej;
+    ek.g_bits = (p && g_k < C02_NSLOTS(p)) ? C02_BASE(p)[g_k].g_bits : 0;
+    ej.g_bits = (p && g_j < C02_NSLOTS(p)) ? C02_BASE(p)[g_j].g_bits : 0;
+    g->sk = ELEM_ST(&ek); g->vk = ELEM_V(&ek); g->sj = ELEM_ST(&ej); g->vj = ELEM_V(&ej);
 }
-#define C02_UNCH(blk, gi, s0, v0) ((blk)[gi].g_state == (s0) && (blk)[gi].v == (v0))
-
 /* ---- vector::changeBuffer, loop 0: for (ip = begin(), op = newbuf; ip != ie; op++, ip++) move_constructor(op, *ip)
- * I = slots done, n = m_size */
+ * I = slots done, n = m_size; old block: moved-from below I, untouched from I on; new block: live copy below I, RAW (zero) above */
 #define C02_INV_CB1(gi, s0, v0, old, nw, n, I, oldcap, newcap)                                                            \
-    ((!((gi) < (n) && (gi) < (I)) || ((old)[gi].g_state == ELEM_MOVED && (nw)[gi].g_state == ELEM_LIVE && (nw)[gi].v == (v0))) && \
-     (!((gi) < (n) && (gi) >= (I)) || (C02_UNCH(old, gi, s0, v0) && (nw)[gi].g_state == ELEM_RAW)) &&                   \
-     (!((gi) >= (n) && (gi) < (oldcap)) || C02_UNCH(old, gi, s0, v0)) &&                                                  \
-     (!((gi) >= (n) && (gi) < (newcap)) || (nw)[gi].g_state == ELEM_RAW))
+    ((!((gi) < (oldcap)) || C02_IS(&(old)[gi], ((gi) < (n) && (gi) < (I)) ? ELEM_MOVED : (s0), v0)) &&                     \
+     (!((gi) < (newcap)) || C02_IS(&(nw)[gi], ((gi) < (n) && (gi) < (I)) ? ELEM_LIVE : ELEM_RAW, ((gi) < (n) && (gi) < (I)) ? (v0) : 0)))
 #define C02_INV_CB_PTR(self, ip, op, newbuf)                                                                               \
     (C02_IN(ip, (self)->m_data, (self)->m_size) && C02_IN(op, newbuf, (self)->m_size) &&                                  \
      __CPROVER_POINTER_OFFSET(op) == __CPROVER_POINTER_OFFSET(ip))
@@ -47,21 +43,19 @@ static inline void g_snap_take(struct c02_snap *g, const ELEM *p)
 /* ---- igris::array_destructor, loop 0: while (first != last) { destructor(&*first); ++first; } */
 #define C02_INV_AD_PTR(first, last)                                                                                        \
     (__CPROVER_same_object(first, last) && __CPROVER_same_object(first, g_ad_first0) &&                                    \
-     (size_t)__CPROVER_POINTER_OFFSET(first) % C02_SZ == 0 &&                                                              \
+     ((size_t)__CPROVER_POINTER_OFFSET(first) & (C02_SZ - 1)) == 0 &&                                                      \
      __CPROVER_POINTER_OFFSET(g_ad_first0) <= __CPROVER_POINTER_OFFSET(first) &&                                           \
      __CPROVER_POINTER_OFFSET(first) <= __CPROVER_POINTER_OFFSET(last))
 #define C02_INV_AD1(gi, s0, v0, first, last)                                                                               \
     (!((gi) < C02_NSLOTS(last)) ||                                                                                         \
-     ((gi) >= C02_IDX(g_ad_first0) && (gi) < C02_IDX(first) ? C02_BASE(last)[gi].g_state == ELEM_RAW                       \
-                                                            : C02_UNCH(C02_BASE(last), gi, s0, v0)))
+     C02_IS(&C02_BASE(last)[gi], ((gi) >= C02_IDX(g_ad_first0) && (gi) < C02_IDX(first)) ? ELEM_RAW : (s0), v0))
 #define C02_INV_AD_K(first, last) C02_INV_AD1(g_k, g_ad.sk, g_ad.vk, first, last)
 #define C02_INV_AD_J(first, last) C02_INV_AD1(g_j, g_ad.sj, g_ad.vj, first, last)
 #define C02_DEC_AD(first, last) (__CPROVER_POINTER_OFFSET(last) - __CPROVER_POINTER_OFFSET(first))
 
 /* ---- vector::clear, loop 0: for (unsigned int i = 0; i < m_size; ++i) destructor(m_data + i) */
 #define C02_INV_CL1(gi, s0, v0, self, i)                                                                                   \
-    (!((gi) < (self)->m_capacity) ||                                                                                       \
-     ((gi) < (i) ? (self)->m_data[gi].g_state == ELEM_RAW : C02_UNCH((self)->m_data, gi, s0, v0)))
+    (!((gi) < (self)->m_capacity) || C02_IS(&(self)->m_data[gi], (gi) < (i) ? ELEM_RAW : (s0), v0))
 #define C02_INV_CL_K(self, i) C02_INV_CL1(g_k, g_cl.sk, g_cl.vk, self, i)
 #define C02_INV_CL_J(self, i) C02_INV_CL1(g_j, g_cl.sj, g_cl.vj, self, i)
 
@@ -70,13 +64,11 @@ static inline void g_snap_take(struct c02_snap *g, const ELEM *p)
  * snapshot g_rs is taken after reserve(n) */
 #define C02_INV_RSG1(gi, s0, v0, self, oldsize, i)                                                                         \
     (!((gi) < (self)->m_capacity) ||                                                                                       \
-     ((gi) >= (oldsize) && (gi) < (i) ? ((self)->m_data[gi].g_state == ELEM_LIVE && (self)->m_data[gi].v == 0)             \
-                                      : C02_UNCH((self)->m_data, gi, s0, v0)))
+     C02_IS(&(self)->m_data[gi], ((gi) >= (oldsize) && (gi) < (i)) ? ELEM_LIVE : (s0), ((gi) >= (oldsize) && (gi) < (i)) ? 0 : (v0)))
 #define C02_INV_RSG_K(self, oldsize, i) C02_INV_RSG1(g_k, g_rs.sk, g_rs.vk, self, oldsize, i)
 #define C02_INV_RSG_J(self, oldsize, i) C02_INV_RSG1(g_j, g_rs.sj, g_rs.vj, self, oldsize, i)
 #define C02_INV_RSS1(gi, s0, v0, self, n, i)                                                                               \
-    (!((gi) < (self)->m_capacity) ||                                                                                       \
-     ((gi) >= (n) && (gi) < (i) ? (self)->m_data[gi].g_state == ELEM_RAW : C02_UNCH((self)->m_data, gi, s0, v0)))
+    (!((gi) < (self)->m_capacity) || C02_IS(&(self)->m_data[gi], ((gi) >= (n) && (gi) < (i)) ? ELEM_RAW : (s0), v0))
 #define C02_INV_RSS_K(self, n, i) C02_INV_RSS1(g_k, g_rs.sk, g_rs.vk, self, n, i)
 #define C02_INV_RSS_J(self, n, i) C02_INV_RSS1(g_j, g_rs.sj, g_rs.vj, self, n, i)
 
@@ -101,11 +93,11 @@ static inline void c02_vec_any(struct vector *v, size_t cap, size_t size, int is
     g_blk_register(p, cap);
     v->m_data = p; v->m_capacity = cap; v->m_size = size;
 #ifdef WITNESS_MODE
-    for (size_t i = 0; i < cap; i++) { p[i].g_state = i < size ? ELEM_LIVE : ELEM_RAW; p[i].v = content[i]; }
+    for (size_t i = 0; i < cap; i++) ELEM_SET(&p[i], i < size ? ELEM_LIVE : ELEM_RAW, content[i]);
 #else
     (void)content;
-    if (g_k < cap) __CPROVER_assume(p[g_k].g_state == (g_k < size ? ELEM_LIVE : ELEM_RAW));
-    if (g_j < cap) __CPROVER_assume(p[g_j].g_state == (g_j < size ? ELEM_LIVE : ELEM_RAW));
+    if (g_k < cap) __CPROVER_assume(ELEM_ST(&p[g_k]) == (g_k < size ? ELEM_LIVE : ELEM_RAW));
+    if (g_j < cap) __CPROVER_assume(ELEM_ST(&p[g_j]) == (g_j < size ? ELEM_LIVE : ELEM_RAW));
 #endif
 }
 
@@ -121,13 +113,13 @@ static inline void c02_vec_check(const struct vector *v)
     __CPROVER_assert(v->m_size <= v->m_capacity, "bounds: VEC: size() <= capacity()");
 #ifdef REPLAY
     for (size_t i = 0; i < v->m_capacity; i++) {
-        if (i < v->m_size) __CPROVER_assert(v->m_data[i].g_state == ELEM_LIVE, "lifetime: VEC: every slot below size() holds a live element");
-        else __CPROVER_assert(v->m_data[i].g_state == ELEM_RAW, "lifetime: VEC: no slot at or above size() holds an element (constructed, never destroyed)");
+        if (i < v->m_size) __CPROVER_assert(ELEM_ST(&v->m_data[i]) == ELEM_LIVE, "lifetime: VEC: every slot below size() holds a live element");
+        else __CPROVER_assert(ELEM_ST(&v->m_data[i]) == ELEM_RAW, "lifetime: VEC: no slot at or above size() holds an element (constructed, never destroyed)");
     }
 #else
     if (b >= 0 && !g_blk_freed[b] && g_k < v->m_capacity && g_blk_n[b] == v->m_capacity) {
-        if (g_k < v->m_size) __CPROVER_assert(v->m_data[g_k].g_state == ELEM_LIVE, "lifetime: VEC: every slot below size() holds a live element");
-        else __CPROVER_assert(v->m_data[g_k].g_state == ELEM_RAW, "lifetime: VEC: no slot at or above size() holds an element (constructed, never destroyed)");
+        if (g_k < v->m_size) __CPROVER_assert(ELEM_ST(&v->m_data[g_k]) == ELEM_LIVE, "lifetime: VEC: every slot below size() holds a live element");
+        else __CPROVER_assert(ELEM_ST(&v->m_data[g_k]) == ELEM_RAW, "lifetime: VEC: no slot at or above size() holds an element (constructed, never destroyed)");
     }
 #endif
 }
